@@ -23,8 +23,16 @@ SERVO_LCD = ("from Reduino import target\nfrom Reduino.Actuators import Servo\nf
 SERVO_I2C = ("from Reduino import target\nfrom Reduino.Actuators import Servo\nfrom Reduino.Displays import LCD\n"
              "target(\"COM3\")\npanel = LCD(i2c_addr=0x27, cols=20, rows=4)\na = Servo(9)\nb = Servo(10)\n"
              "while True:\n    a.write(10)\n    b.write(170)\n")
+LCD_BOTH = ("from Reduino import target\nfrom Reduino.Displays import LCD\n"
+            "target(\"COM3\")\nlcd = LCD(rs=12, en=11, d4=5, d5=4, d6=3, d7=2)\npanel = LCD(i2c_addr=0x27, cols=20, rows=4)\n"
+            "lcd.write(0, 0, \"hi\")\npanel.write(0, 0, \"ho\")\n")
+ALL_LIBS = ("from Reduino import target\nfrom Reduino.Actuators import Servo\nfrom Reduino.Displays import LCD\n"
+            "target(\"COM3\")\npanel = LCD(i2c_addr=0x3F)\ns = Servo(9)\nlcd = LCD(rs=12, en=11, d4=5, d5=4, d6=3, d7=2)\n"
+            "while True:\n    s.write(45)\n")
 # script name -> (text, libraries it needs, parses)
 SCRIPTS = {
+    "lcd_both": (LCD_BOTH, ["LiquidCrystal", "LiquidCrystal_I2C"], True),
+    "all_libs": (ALL_LIBS, ["Servo", "LiquidCrystal", "LiquidCrystal_I2C"], True),
     "led": (LED, [], True),
     "empty": ("", [], True),
     "servo_lcd": (SERVO_LCD, ["Servo", "LiquidCrystal"], True),
@@ -38,6 +46,8 @@ PAIRS = [("atmelavr", "uno"), ("atmelmegaavr", "nano_every"),
          ("espressif32", "uno"), ("atmelavr", "not_a_board"), ("atmelavr", "nano_every"), ("atmelmegaavr", "uno")]
 EXTRA_PAIRS = [("", "uno"), ("atmelavr", ""), ("ATMELAVR", "uno"), ("atmelavr", "Uno"), ("uno", "atmelavr")]
 PORTS = ["/dev/ttyUSB0", "COM7"]
+# exit status of a failing PlatformIO run (negative = killed by a signal, as subprocess reports it on POSIX)
+FAIL_RCS = [1, -9, 2, 127, -15]
 
 EV_NAMES = {0: "RunPioVersion", 1: "ReadMain", 2: "Parse", 3: "Emit", 4: "Mkdtemp", 5: "Mkdir",
             6: "WriteMain", 7: "WriteIni", 8: "RunBuild", 9: "RunUpload"}
@@ -68,7 +78,8 @@ def scenarios(thorough: bool, more_valid=()):
                 for upload in (False, True):
                     for pio in (False, True):
                         out.append({"script": script, "port": PORTS[(i + j + k) % 2], "platform": pl, "board": b,
-                                    "upload": upload, "pio": pio, "faults": list(fv)})
+                                    "upload": upload, "pio": pio, "faults": list(fv),
+                                    "rc": FAIL_RCS[(i + 2 * j + k + int(upload)) % len(FAIL_RCS)]})
     return out
 
 
@@ -308,7 +319,7 @@ def run(ctx: C.Ctx):
         "evaluations": len(cases),
         "distinct_nontrivial": sum(1 for sc in cases if is_valid_pair(plats, sc["platform"], sc["board"])),
         "rule": "exhaustive product: fault vectors (quick: every subset of size <= 2, three triples and the full set; thorough: all 2^7 subsets of "
-                "{readmain, mkdtemp, mkdir, writemain, writeini, build non-zero, upload non-zero}) x 6 scripts (LED blink, empty, Servo+parallel LCD, "
+                "{readmain, mkdtemp, mkdir, writemain, writeini, build failing, upload failing - exit status rotating over 1, 2, 127 and signal deaths -9, -15}) x 8 scripts (parallel+I2C LCD, Servo+both LCDs, LED blink, empty, Servo+parallel LCD, "
                 "two Servos+I2C LCD, non-ASCII comment, one the transpiler rejects with ValueError = the parse fault) x (platform, board) pairs "
                 "(2 valid on both platforms, unknown platform, unknown board, 2 mismatched, near-miss names) x upload x PlatformIO present/absent; "
                 "non-trivial = the pair is valid, so the call gets past validation; every scenario goes through the model correspondence and the oracle",
